@@ -8,10 +8,13 @@
   sign-extended offset with wrap-around, which is the exact sum whenever that sum is a
   `u64` below 2^63 — and nothing in it can panic (no checked operation is left).
 
-  Partial: there is no theorem that `F64.mul` *is* IEEE-754 multiplication; that part is
-  an executable model compared with the hardware on every run.
+  The rounding of the model is proved to be round-to-nearest, ties-to-even onto a 53-bit
+  significand (`C18_int_to_f64`, `C18_mul`), which is what IEEE-754 prescribes for binary64
+  results; that the hardware's `f64` arithmetic implements IEEE-754 is trusted and compared
+  bit-for-bit with the model on every case of every run.
 -/
 import DltVerif.Model.Fixed
+import DltVerif.Lemmas.Round53
 
 namespace Dlt
 
@@ -98,6 +101,44 @@ theorem C18_result_u64 (a : Argument) (r : Nat) (h : a.toRealValue = some r) : r
   · exact key r h
   · exact key r h
   · simp at h
+
+/-- a significand / exponent pair is the round-to-nearest-even of the number `m * 2^e` onto a
+    53-bit significand: `q * 2^(e+k)` is a nearest multiple of `2^(e+k)`, an exact tie goes to
+    the even significand, and `q` has at most 53 bits (exactly 53 when bits were dropped) -/
+def IsRne53 (m : Nat) (e : Int) (q : Nat) (e' : Int) : Prop :=
+  ∃ k : Nat, e' = e + (k : Int)
+    ∧ 2 * m ≤ 2 * (q * 2 ^ k) + 2 ^ k ∧ 2 * (q * 2 ^ k) ≤ 2 * m + 2 ^ k
+    ∧ ((2 * m = 2 * (q * 2 ^ k) + 2 ^ k ∨ 2 * (q * 2 ^ k) = 2 * m + 2 ^ k) → k ≠ 0 → q % 2 = 0)
+    ∧ q ≤ 2 ^ 53 ∧ ((k = 0 ∧ q = m) ∨ 2 ^ 52 ≤ q)
+
+/-- `v as f64` is the integer rounded to nearest, ties to even -/
+theorem C18_int_to_f64 (v : Int) :
+    ∃ q e', intToF64 v = .fin (decide (v < 0)) q e' ∧ IsRne53 v.natAbs 0 q e' := by
+  obtain ⟨k, q, h, h1, h2, h3, h4, h5⟩ := round53_nearest_even v.natAbs 0
+  refine ⟨q, 0 + (k : Int), ?_, k, rfl, h1, h2, h3, h4, h5⟩
+  simp only [intToF64, h]
+
+/-- the product of two finite doubles is the exact product rounded to nearest, ties to even -/
+theorem C18_mul (n1 n2 : Bool) (m1 m2 : Nat) (e1 e2 : Int) :
+    ∃ q e', F64.mul (.fin n1 m1 e1) (.fin n2 m2 e2) = .fin (n1 != n2) q e'
+      ∧ IsRne53 (m1 * m2) (e1 + e2) q e' := by
+  obtain ⟨k, q, h, h1, h2, h3, h4, h5⟩ := round53_nearest_even (m1 * m2) (e1 + e2)
+  refine ⟨q, e1 + e2 + (k : Int), ?_, k, rfl, h1, h2, h3, h4, h5⟩
+  simp only [F64.mul, h]
+
+/-- an `f32` quantization converts to double exactly (24-bit significand) -/
+theorem C18_f32_exact (bits : BitVec 32) (neg : Bool) (m : Nat) (e : Int)
+    (h : f32ToF64 bits = .fin neg m e) : m < 2 ^ 24 := by
+  unfold f32ToF64 at h
+  simp only [] at h
+  split at h
+  · split at h <;> cases h
+  · split at h
+    · cases h
+      exact Nat.lt_of_lt_of_le (Nat.mod_lt _ (by decide)) (by decide)
+    · cases h
+      have := Nat.mod_lt bits.toNat (by decide : 0 < 2 ^ 23)
+      omega
 
 -- non-vacuity: degrees Celsius example of the source comment (7785 * 0.01 - 50 = 27),
 -- and the input that used to panic (1000 * 1.0 - 200 = 800)
